@@ -69,8 +69,21 @@ InFormulaDomain(a, b, in) ==
     [] a = "srgb" /\ b \in {"hsv", "hsl"} -> \A i \in 1..3 : FxLe(FxZero, in[i]) /\ FxLe(in[i], FxOne)
     [] OTHER -> TRUE
 
+(* a saturation sweep of one Okhsl hue and lightness, converted to Oklch: out[i] = (L, C, h) *)
+SweepWhy(e) ==
+  IF e.panic = 1 THEN "panic"
+  ELSE IF \E i \in DOMAIN e.out : ~AllFin(e.out[i]) THEN "ok"
+  ELSE LET ss == FxSeq(e.s)
+           cs == [i \in DOMAIN e.out |-> FxOf(e.out[i][2])]
+       IN IF FxLt(cs[3], FxEps(10)) THEN "ok"             \* (almost) no chroma available at this lightness
+          ELSE LET bits == OkhslInterpBits(ss, cs)
+               IN IF Calib THEN (IF PrintT(<<"NOTE", "okhsl", "sweep", e.t, bits, l>>) THEN "ok" ELSE "ok")
+                  ELSE IF bits < (IF e.t = "f32" THEN 16 ELSE 44) THEN "okhsl-interpolation-differs-from-published-definition"   \* calibration: 23 / 51 bits
+                  ELSE "ok"
+
 Why(e) ==
-  IF e.ev # "walk" \/ Len(e.nodes) # 2 THEN "ok"
+  IF e.ev = "sweep" THEN SweepWhy(e)
+  ELSE IF e.ev # "walk" \/ Len(e.nodes) # 2 THEN "ok"
   ELSE IF e.panic = 1 THEN "panic"
   ELSE IF e.missing = 1 THEN "ok"
   ELSE IF ~AllFin(e.vals[1]) \/ ~AllFin(e.vals[2]) THEN "ok"      \* finiteness is C07's
